@@ -25,6 +25,32 @@ class CallGraph:
         self.prog = prog
         self._callees = {}
         self._local_types = {}
+        self._live = None
+
+    # --------------------------------------------------------------------- RTA
+    def live_class(self, c):
+        if self._live is None:
+            names = set()
+            for m in self.prog.modules.values():
+                for n in ast.walk(m.tree):
+                    if isinstance(n, ast.Call):
+                        d = dotted(n.func)
+                        if d:
+                            names.add(d.split(".")[-1])
+                    elif isinstance(n, ast.ClassDef):
+                        pass
+            inst = {k for k in self.prog.classes if k.name in names}
+            live = set()
+            for k in inst:
+                for b in self.prog.mro(k):
+                    live.add(b)
+            # local classes (interposers, iterators) are created by `type(...)`/returned: treat as live
+            for k in self.prog.classes:
+                if k.outer is not None:
+                    for b in self.prog.mro(k):
+                        live.add(b)
+            self._live = live
+        return c in self._live
 
     # ------------------------------------------------------------------- types
     def local_types(self, func):
@@ -125,6 +151,8 @@ class CallGraph:
                     g = prog.lookup(r, "__init__")
                     return [g] if g else []
             cands = [g for g in prog.funcs_named(name) if g.cls is not None or g.outer is not None]
+            # RTA: a method can only be reached through an unknown receiver if its class (or a subclass) is instantiated somewhere
+            cands = [g for g in cands if g.cls is None or self.live_class(g.cls)]
             if model_layer(func.module.name) and not (isinstance(v, ast.Attribute) and v.attr == "rand_if"):
                 # layering: vsc.model / vsc.visitors never import the facade; the only way up is the rand_if callback object
                 cands = [g for g in cands if model_layer(g.module.name)]
